@@ -72,6 +72,24 @@ func (s *BlockedServices) Clone() (c *BlockedServices) {
 	}
 }
 
+// withSchedule returns s itself if it has a schedule, and otherwise a copy of
+// s, which may be nil, with an empty schedule.  Unlike the HTTP API, the
+// configuration file may contain blocked services without a schedule, which
+// means that the blocking is never paused.
+func (s *BlockedServices) withSchedule() (c *BlockedServices) {
+	switch {
+	case s == nil:
+		return &BlockedServices{Schedule: schedule.EmptyWeekly()}
+	case s.Schedule == nil:
+		c = s.Clone()
+		c.Schedule = schedule.EmptyWeekly()
+
+		return c
+	default:
+		return s
+	}
+}
+
 // Validate returns an error if blocked services contain unknown service ID.  s
 // must not be nil.
 func (s *BlockedServices) Validate() (err error) {
